@@ -40,7 +40,7 @@ def main():
         res['demo_ok'] = (rc1 != 0 and rc0 == 0)
         if suite:
             t0 = time.time()
-            rc, out = sh('cd %s && timeout 3000 /venv/bin/python -m pytest -q -p no:cacheprovider --timeout=900 2>&1 | tail -15' % tree, env=env)
+            rc, out = sh("unshare -n sh -c 'ip link set lo up; cd %s && timeout 3000 /venv/bin/python -m pytest -q -p no:cacheprovider --timeout=900 2>&1 | tail -15'" % tree, env=env)
             failed = set(re.findall(r'FAILED \S+::(\w+)', out)) | set(re.findall(r'ERROR \S+::(\w+)', out))
             res['suite'] = {'failed': sorted(failed), 'ok': failed <= BASELINE_FAIL, 'wall_s': round(time.time() - t0),
                             'summary': out.strip().split('\n')[-1]}
